@@ -17,7 +17,16 @@
      Y <tag> <N> <ncols> <nrows> {id v..} # {v.. count first last nids ids..}     as S, carried rows
      N <carried value> <hex of cast.GroupKeyPart> <hex of CountingWindow.getKey>  the two key sites, one carrier
    V / Y are judged by the same checkers on the NUMBERS (erase_row); the model of the code runs on the
-   carried rows: buffers keyed by c_cnt_key, every batch grouped by c_agg_key. *)
+   carried rows: buffers keyed by c_cnt_key, every batch grouped by c_agg_key.
+     F <tag> <hex SQL> <hex JSON of the emitted rows> <N> <ncols> <nrows> {id v..} # {..as S..}
+         function-valued grouping keys (harness/c09fn.go): v = the VALUE of the grouping expression on that row;
+         judged exactly like S (the two hex fields only document the input).
+     B <tag> <BlockTimeout ms> <cap> <sentCount> <droppedCount> <E> {<rows added> <batches taken>}xE <N> <ncols> <nrows> {id v..} # {nids ids..}
+         the "block" overflow strategy through the window API in real time (harness/c09block.go): E episodes, in each
+         the rows are added while nobody receives, then the consumer receives up to <batches taken> waiting batches.
+         Judged by chk_C09 when the model of the strategy (Model/CountingBlock.v, blk_run on that schedule) drops
+         nothing, by chk_C09_lossy (N-blocks of their key, in order) when full-channel timeouts drop batches; then
+         batches = the model's received batches and sentCount / droppedCount = the model's. *)
 open Model
 open Util
 
@@ -139,6 +148,50 @@ let handle (toks : string list) : string =
                      then Printf.sprintf "chk evicted_uncounted evicted=%d droppedCount=%s results_missing=%d" (int_of_nat s.lg_evicted) wdropped lost
                      else if List.exists (fun (_, _, seen) -> seen >= 2) eps then "ok nt" else "ok")
             | _ -> "bad line")
+       | _ -> "bad line")
+  | "B" :: _tag :: _timeout :: cap :: sent :: dropped :: e :: rest ->
+      let cap = int_of_string cap and e = int_of_string e in
+      let (shape, rest) = C04.take (2 * e) rest in
+      (match rest with
+       | n :: ncols :: nrows :: rest ->
+           let n = int_of_string n and ncols = int_of_string ncols in
+           let (rows, r) = C04.parse_rows ncols (int_of_string nrows) rest in
+           (match r with
+            | "#" :: obs ->
+                let impl = C04.parse_idlists obs in
+                let rec sched shape rows = (match shape with
+                    | a :: t :: shape' ->
+                        let (mine, rows') = C04.take (int_of_string a) rows in
+                        blk_episode mine (nat_of_int (int_of_string t)) @ sched shape' rows'
+                    | _ -> []) in
+                let s = blk_run cnt_key (nat_of_int n) (nat_of_int cap) (sched shape rows) in
+                let lost = int_of_nat s.lg_dropped in
+                let chk = if lost = 0 then chk_C09 (nat_of_int n) rows impl else chk_C09_lossy (nat_of_int n) rows impl in
+                let model = List.map (fun (_, b) -> List.map (fun r -> r.krid) b) s.lg_taken in
+                let counters = Printf.sprintf "sentCount=%s droppedCount=%s (model: %d %d)" sent dropped (int_of_nat s.lg_sent) lost in
+                (match chk with
+                 | Some c -> "chk " ^ C04.string_of_gclause c ^ (if lost > 0 then "_lossy " else " ") ^ counters
+                             ^ (if model <> impl then " model=" ^ C04.show_batches model else "")
+                 | None ->
+                     if model <> impl then "diff block_batches model=" ^ C04.show_batches model
+                     else if int_of_string sent <> int_of_nat s.lg_sent || int_of_string dropped <> lost
+                     then "diff block_counters " ^ counters
+                     else if List.length impl >= 2 then "ok nt" else "ok")
+            | _ -> "bad line")
+       | _ -> "bad line")
+  | "F" :: _tag :: _sql :: _raw :: n :: ncols :: nrows :: rest ->
+      let n = int_of_string n and ncols = int_of_string ncols in
+      let (rows, r) = C04.parse_rows ncols (int_of_string nrows) rest in
+      (match r with
+       | "#" :: obs ->
+           let res = C04.parse_results ncols true obs in
+           (match chk_C09_sql (nat_of_int n) rows res with
+            | Some c -> "chk " ^ C04.string_of_gclause c
+            | None ->
+                let batches = List.map (fun g -> g.g_ids) res in
+                (match C04.counting_verdict n rows batches with
+                 | Some d -> d
+                 | None -> if nontrivial n rows batches then "ok nt" else "ok"))
        | _ -> "bad line")
   | "V" :: _tag :: n :: ncols :: nrows :: rest ->
       let n = int_of_string n and ncols = int_of_string ncols in
